@@ -358,6 +358,16 @@ func foldOver(c *Ctx, info *types.Info, fd *ast.FuncDecl, operands []types.Objec
 				if ai >= len(hp) {
 					continue
 				}
+				// a visiting helper: for each element of the operand call the function it is handed, stop
+				// when that function says false.  Then the function literal at the call site is the loop body.
+				if v := visitorFold(c, info, hinfo, hd, hp[ai], call, accept); v != "n/a" {
+					if v == "" {
+						ok = true
+					} else if !strings.HasPrefix(v, "skip:") {
+						res = v
+					}
+					continue
+				}
 				sub := foldOver(c, hinfo, hd, []types.Object{hp[ai]}, accept, delegates, depth+1)
 				if sub == "" {
 					ok = true
@@ -609,4 +619,151 @@ func checkRemoveWhileIndexing(c *Ctx, r *Rec, rule string, info *types.Info, fds
 		}
 	}
 	return n
+}
+
+// visitorFold: hd enumerates its parameter `operand` and calls a function-typed parameter with
+// each element, leaving its loop only when that function returns false; the call site passes a
+// function literal.  Returns "n/a" when hd is not such a helper; "" when the literal applies an
+// accepted operation to every element and never asks to stop; a complaint otherwise.
+func visitorFold(c *Ctx, info, hinfo *types.Info, hd *ast.FuncDecl, operand types.Object, call *ast.CallExpr, accept map[string]bool) string {
+	hp := paramObjs(hinfo, hd)
+	var visitor types.Object
+	vi := -1
+	for i, p := range hp {
+		if _, isSig := p.Type().Underlying().(*types.Signature); isSig {
+			visitor, vi = p, i
+		}
+	}
+	loops := loopsIn(hd.Body)
+	if visitor == nil || len(loops) != 1 || vi >= len(call.Args) {
+		return "n/a"
+	}
+	lit, ok := ast.Unparen(call.Args[vi]).(*ast.FuncLit)
+	if !ok {
+		return "n/a"
+	}
+	// the helper's loop: covering over the operand, except for exits guarded by the visitor's answer
+	var body *ast.BlockStmt
+	switch l := loops[0].(type) {
+	case *ast.ForStmt:
+		if l.Cond == nil || findIterCond(hinfo, l.Cond, "HasNext") == nil {
+			return "n/a"
+		}
+		if _, isCall := ast.Unparen(l.Cond).(*ast.CallExpr); !isCall {
+			return "n/a"
+		}
+		body = l.Body
+	case *ast.RangeStmt:
+		body = l.Body
+	}
+	calls := 0
+	exitsOK := true
+	ast.Inspect(body, func(x ast.Node) bool {
+		if cl, ok := x.(*ast.CallExpr); ok && isObj(hinfo, cl.Fun, visitor) {
+			calls++
+		}
+		switch st := x.(type) {
+		case *ast.ReturnStmt, *ast.BranchStmt:
+			// must sit in an if whose condition is the (negated) visitor call
+			guarded := false
+			for _, p := range pathTo(body, st.(ast.Node)) {
+				if is, ok := p.(*ast.IfStmt); ok {
+					found := false
+					ast.Inspect(is.Cond, func(y ast.Node) bool {
+						if cl, ok := y.(*ast.CallExpr); ok && isObj(hinfo, cl.Fun, visitor) {
+							found = true
+						}
+						return true
+					})
+					if found {
+						guarded = true
+					}
+				}
+			}
+			if !guarded {
+				exitsOK = false
+			}
+		}
+		return true
+	})
+	if calls != 1 {
+		return "n/a"
+	}
+	if !exitsOK {
+		return "in the helper " + hd.Name.Name + ": the traversal can stop for a reason other than the visitor's answer: not every element of the operand is processed"
+	}
+	// the literal: applies an accepted operation to its parameter and always answers true
+	lp := lit.Type.Params
+	if lp == nil || len(lp.List) == 0 {
+		return "skip: the visitor takes no element"
+	}
+	var elems []types.Object
+	for _, f := range lp.List {
+		for _, nm := range f.Names {
+			elems = append(elems, info.Defs[nm])
+		}
+	}
+	stops := false
+	ast.Inspect(lit.Body, func(x ast.Node) bool {
+		if rs, ok := x.(*ast.ReturnStmt); ok && len(rs.Results) == 1 {
+			if tv := info.Types[rs.Results[0]]; tv.Value == nil || tv.Value.String() != "true" {
+				stops = true
+			}
+		}
+		return true
+	})
+	applied, conditional := false, false
+	for _, st := range lit.Body.List {
+		nested := false
+		switch st.(type) {
+		case *ast.IfStmt, *ast.SwitchStmt, *ast.ForStmt, *ast.RangeStmt:
+			nested = true
+		}
+		ast.Inspect(st, func(x ast.Node) bool {
+			if _, mname, cl, ok := methodCall(x); ok && accept[mname] {
+				uses := false
+				for _, a := range cl.Args {
+					ast.Inspect(a, func(y ast.Node) bool {
+						if id, ok := y.(*ast.Ident); ok {
+							for _, e := range elems {
+								if e != nil && info.Uses[id] == e {
+									uses = true
+								}
+							}
+							if init := initOfIn(info, lit.Body, id); init != nil {
+								ast.Inspect(init, func(z ast.Node) bool {
+									if id2, ok := z.(*ast.Ident); ok {
+										for _, e := range elems {
+											if e != nil && info.Uses[id2] == e {
+												uses = true
+											}
+										}
+									}
+									return true
+								})
+							}
+						}
+						return true
+					})
+				}
+				if uses {
+					if nested {
+						conditional = true
+					} else {
+						applied = true
+					}
+				}
+			}
+			return true
+		})
+	}
+	switch {
+	case stops:
+		return "the function handed to " + hd.Name.Name + " can answer false, which stops the traversal: not every element of the operand is processed"
+	case applied:
+		return ""
+	case conditional:
+		return "the function handed to " + hd.Name.Name + " applies the operation to the element it visits only under a condition: not every element of the operand is processed"
+	}
+	return "skip: the function handed to " + hd.Name.Name + " does not apply the expected operation to the element it visits"
 }
